@@ -10,6 +10,7 @@ def cands(t, steps):
     return out
 
 
+@guarded
 def check(r, notes, extras, steps):
     inp = {"notes": notes, "extras": extras, "steps": steps}
     st = steps if steps is not None else get_default_step_sizes()
